@@ -551,3 +551,108 @@ Proof.
   - intros m [_ Hc]. apply (m_cfg_spec _ Hf m Hc).
   - intros h Hh. apply (h_cfg_first _ Hf h Hh).
 Qed.
+
+(** * Midline: leaves by identifier *)
+Definition ipsi_ids : list leaf_id := [LExtIpsi; LNoextIpsi; LCentralIpsi].
+Definition contra_ids : list leaf_id := [LExtContra; LNoextContra; LCentralContra].
+
+Lemma in_ipsi_leaves m u : In u (ipsi_leaves m) <-> exists l, In l ipsi_ids /\ ml_leaf m l = Some u.
+Proof.
+  unfold ipsi_leaves, ipsi_ids, ext_i, noext_i. split.
+  - intros H. apply in_app_iff in H. destruct H as [[<-|[<-|[]]]|H].
+    + exists LExtIpsi. split; [cbn; tauto | reflexivity].
+    + exists LNoextIpsi. split; [cbn; tauto | reflexivity].
+    + exists LCentralIpsi. split; [cbn; tauto|]. cbn [ml_leaf]. destruct (ml_central m); cbn in *; [destruct H as [<-|[]]; reflexivity | destruct H].
+  - intros (l & Hl & E). apply in_app_iff. destruct Hl as [<-|[<-|[<-|[]]]]; cbn [ml_leaf] in E.
+    + injection E as <-. left. cbn. tauto.
+    + injection E as <-. left. cbn. tauto.
+    + right. destruct (ml_central m); cbn in *; [injection E as <-; tauto | discriminate].
+Qed.
+Lemma in_contra_leaves m u : In u (contra_leaves m) <-> exists l, In l contra_ids /\ ml_leaf m l = Some u.
+Proof.
+  unfold contra_leaves, contra_ids, ext_c, noext_c. split.
+  - intros H. apply in_app_iff in H. destruct H as [[<-|[<-|[]]]|H].
+    + exists LExtContra. split; [cbn; tauto | reflexivity].
+    + exists LNoextContra. split; [cbn; tauto | reflexivity].
+    + exists LCentralContra. split; [cbn; tauto|]. cbn [ml_leaf]. destruct (ml_central m); cbn in *; [destruct H as [<-|[]]; reflexivity | destruct H].
+  - intros (l & Hl & E). apply in_app_iff. destruct Hl as [<-|[<-|[<-|[]]]]; cbn [ml_leaf] in E.
+    + injection E as <-. left. cbn. tauto.
+    + injection E as <-. left. cbn. tauto.
+    + right. destruct (ml_central m); cbn in *; [injection E as <-; tauto | discriminate].
+Qed.
+Lemma in_all_leaves m u : In u (all_leaves m) <->
+  (exists l, ml_leaf m l = Some u) \/ (exists k, ml_unknown m = Some k /\ (u = b_ipsi k \/ u = b_contra k)).
+Proof.
+  unfold all_leaves, ext_i, ext_c, noext_i, noext_c. rewrite !in_app_iff. split.
+  - intros [[<-|[<-|[<-|[<-|[]]]]]|[H|[H|[H|H]]]].
+    + left. exists LExtIpsi. reflexivity.
+    + left. exists LExtContra. reflexivity.
+    + left. exists LNoextIpsi. reflexivity.
+    + left. exists LNoextContra. reflexivity.
+    + left. exists LCentralIpsi. cbn [ml_leaf]. destruct (ml_central m); cbn in *; [destruct H as [<-|[]]; reflexivity | destruct H].
+    + left. exists LCentralContra. cbn [ml_leaf]. destruct (ml_central m); cbn in *; [destruct H as [<-|[]]; reflexivity | destruct H].
+    + right. destruct (ml_unknown m) as [k|]; cbn in *; [destruct H as [<-|[]]; exists k; tauto | destruct H].
+    + right. destruct (ml_unknown m) as [k|]; cbn in *; [destruct H as [<-|[]]; exists k; tauto | destruct H].
+  - intros [(l & E)|(k & E & H)].
+    + destruct l; cbn [ml_leaf] in E.
+      * right. left. destruct (ml_central m); cbn in *; [injection E as <-; tauto | discriminate].
+      * right. right. left. destruct (ml_central m); cbn in *; [injection E as <-; tauto | discriminate].
+      * injection E as <-. left. cbn. tauto.
+      * injection E as <-. left. cbn. tauto.
+      * injection E as <-. left. cbn. tauto.
+      * injection E as <-. left. cbn. tauto.
+    + right. right. right. rewrite E. cbn. destruct H as [->| ->]; tauto.
+Qed.
+
+(** [m'] is [m] with every parameter leaf [u] at [l] replaced by [tr l u] *)
+Record mid_rel (tr : leaf_id -> uni -> uni) (m m' : midline) : Prop := {
+  mr_leaf : forall l, ml_leaf m' l = option_map (tr l) (ml_leaf m l);
+  mr_unknown : ml_unknown m' = ml_unknown m;
+  mr_symL : ml_symL m' = ml_symL m;
+  mr_csym : option_map b_symT (ml_central m') = option_map b_symT (ml_central m) }.
+
+Lemma mid_rel_refl m : mid_rel (fun _ u => u) m m.
+Proof. split; try reflexivity. intros l. destruct (ml_leaf m l); reflexivity. Qed.
+Lemma mid_rel_trans t1 t2 m m1 m2 : mid_rel t1 m m1 -> mid_rel t2 m1 m2 -> mid_rel (fun l u => t2 l (t1 l u)) m m2.
+Proof.
+  intros [A1 A2 A3 A4] [B1 B2 B3 B4]. split; try congruence.
+  intros l. rewrite B1, A1. destruct (ml_leaf m l); reflexivity.
+Qed.
+Lemma mid_rel_ext t1 t2 m m' : (forall l u, ml_leaf m l = Some u -> t1 l u = t2 l u) -> mid_rel t1 m m' -> mid_rel t2 m m'.
+Proof.
+  intros H [A1 A2 A3 A4]. split; try assumption. intros l. rewrite A1. destruct (ml_leaf m l) as [u|] eqn:E; [|reflexivity].
+  cbn. rewrite (H l u E). reflexivity.
+Qed.
+
+Definition leaf_eqb (a b : leaf_id) : bool :=
+  match a, b with
+  | LCentralIpsi, LCentralIpsi | LCentralContra, LCentralContra | LExtIpsi, LExtIpsi
+  | LExtContra, LExtContra | LNoextIpsi, LNoextIpsi | LNoextContra, LNoextContra => true
+  | _, _ => false
+  end.
+Lemma leaf_eqb_eq a b : leaf_eqb a b = true <-> a = b.
+Proof. destruct a, b; cbn; split; intros; try reflexivity; try discriminate. Qed.
+Lemma leaf_eqb_refl a : leaf_eqb a a = true. Proof. destruct a; reflexivity. Qed.
+
+(** replacing one existing leaf *)
+Lemma mid_rel_with_leaf m l u u' : ml_leaf m l = Some u ->
+  mid_rel (fun l' v => if leaf_eqb l' l then u' else v) m (ml_with_leaf m l u').
+Proof.
+  intros E. destruct l; cbn [ml_leaf] in E; cbn [ml_with_leaf].
+  1,2: destruct (ml_central m) as [c|] eqn:Ec; [|discriminate].
+  all: split; try reflexivity; try (cbn [ml_with_central ml_with_models ml_central]; rewrite ?Ec; reflexivity).
+  all: intros l'; destruct l'; cbn [ml_leaf ml_with_central ml_with_ext ml_with_noext ml_with_models ml_central ml_ext ml_noext
+                                   b_with_ipsi b_with_contra b_with b_ipsi b_contra option_map leaf_eqb]; rewrite ?Ec; try reflexivity;
+    destruct (ml_central m); reflexivity.
+Qed.
+Lemma mid_rel_with_mixing m q : mid_rel (fun _ u => u) m (ml_with_mixing m q).
+Proof. split; try reflexivity. intros l. destruct l; cbn; destruct (ml_central m); reflexivity. Qed.
+Lemma mid_rel_with_midext m q : mid_rel (fun _ u => u) m (ml_with_midext m q).
+Proof. split; try reflexivity. intros l. destruct l; cbn; destruct (ml_central m); reflexivity. Qed.
+Lemma mid_rel_with_central m c c' : ml_central m = Some c -> b_symT c' = b_symT c ->
+  mid_rel (fun l v => match l with LCentralIpsi => b_ipsi c' | LCentralContra => b_contra c' | _ => v end) m (ml_with_central m c').
+Proof.
+  intros Ec Hs. split; try reflexivity.
+  - intros l. destruct l; cbn; rewrite ?Ec; reflexivity.
+  - cbn. rewrite Ec. cbn. rewrite Hs. reflexivity.
+Qed.
